@@ -4,7 +4,7 @@
    real constant on every run (Gen/C10.v) and enters through the side conditions of Proofs/SideC10.v.
    The transport (a *net.TCPConn) is the chunk oracle of Base/Chunks.v: every statement is `forall c` (chunking).
    Nothing is bounded: frame lists, write scripts, read-buffer size sequences, byte strings are arbitrary. *)
-From TX Require Import Model.CrossFrame Proofs.CrossFrame Model.CrossTracker Proofs.CrossTracker Model.Forward Proofs.Forward Proofs.CrossCompose Proofs.SideC10 Gen.C10.
+From TX Require Import Model.CrossFrame Proofs.CrossFrame Model.CrossTracker Proofs.CrossTracker Model.CrossEndpoint Proofs.CrossEndpoint Model.Forward Proofs.Forward Proofs.CrossCompose Proofs.SideC10 Gen.C10.
 Close Scope N_scope.
 
 (* (1) every list of frames the writers accept decodes to itself under every chunking, then a clean io.EOF *)
@@ -431,3 +431,45 @@ Theorem C10_end_to_end_example :
   = [RData [1;2]; RData [3]; RData [4;5;6]; RData [7]; REof]%N.
 Proof. exact end_to_end_example. Qed.
 Print Assumptions C10_end_to_end_example.
+
+(* ------------------------------------------------------------------------------------------------------------
+   ONE FrameStream as a whole (Model/CrossEndpoint.v): a script mixes Reads — of whatever the peer has sent: data, its
+   HALF-close, its close, garbage (`incoming`: any reader state) — with Write / CloseWrite / Close.  What the stream puts on
+   the wire is that of its write-side calls alone: *)
+Theorem C10_frames_ignore_reads :
+  forall tid (ops : list eop) (s : ep),
+  ep_frames MaxFrameSize false tid s ops = script_frames MaxFrameSize tid (e_weof s) (wops ops).
+Proof. exact (ep_frames_ignore_reads MaxFrameSize). Qed.
+Print Assumptions C10_frames_ignore_reads.
+
+(* ... so Close / CloseWrite always delivers end-of-stream unless the WRITE side had ended before: for every such script that
+   contains a close, the peer reads exactly the accepted Writes and then end-of-stream, and that end is a FRAME on the wire
+   (anything may follow on the connection, which may equally stay open and silent) *)
+Theorem C10_close_always_ends_the_stream :
+  forall tid (ops : list eop) (incoming : rd) (tail : list byte) weof caps dcap c,
+  length tid = 16 -> has_close (wops ops) = true -> Forall (fun k => 1 <= k) caps -> 1 <= dcap ->
+  data_of (fst (fst (read_stream MaxFrameSize tid weof caps dcap
+            (encode_all MaxFrameSize (ep_frames MaxFrameSize false tid (ep_init incoming) ops) ++ tail) c))) = accepted (wops ops) /\
+  last (fst (fst (read_stream MaxFrameSize tid weof caps dcap
+            (encode_all MaxFrameSize (ep_frames MaxFrameSize false tid (ep_init incoming) ops) ++ tail) c))) RFuel = REof /\
+  existsb (is_end_frame tid) (ep_frames MaxFrameSize false tid (ep_init incoming) ops) = true.
+Proof. exact (close_always_ends_the_stream MaxFrameSize max_frame_fits_u32 max_frame_pos). Qed.
+Print Assumptions C10_close_always_ends_the_stream.
+
+(* the variant "Close sends nothing once readEOF is set": the peer half-closes, we read that, answer and Close — the answer goes
+   out and no end-of-stream marker ever follows *)
+Theorem C10_skip_close_on_read_eof_refuted :
+  exists tid incoming ops,
+    has_close (wops ops) = true /\
+    existsb (is_end_frame tid) (ep_frames 65536 true tid (ep_init incoming) ops) = false /\
+    ep_frames 65536 true tid (ep_init incoming) ops <> script_frames 65536 tid false (wops ops).
+Proof. exact skip_close_on_read_eof_refuted. Qed.
+Print Assumptions C10_skip_close_on_read_eof_refuted.
+
+Theorem C10_endpoint_example :
+  let tid := wire_id [97;98;99]%N in
+  let incoming := mkrd (encode_all 65536 [{| f_tid := tid; f_ty := T_Data; f_data := [9]%N |}; {| f_tid := tid; f_ty := T_EOF; f_data := [] |}]) [] in
+  map f_ty (ep_frames 65536 false tid (ep_init incoming) [ERead 64; ERead 64; EWrite [1;2;3]%N; ERead 1; EClose; EWrite [4]%N])
+  = [T_Data; T_Close].
+Proof. exact endpoint_example. Qed.
+Print Assumptions C10_endpoint_example.
